@@ -137,7 +137,7 @@ def streams(seed, tier):
             cases.append(case(rng.randrange(2), 7, base, [st], tape(rng)))
             cases.append(case(rng.randrange(2), 11, base, [st, [], S("FLOAT.RAND"), 0, [], 0], tape(rng)))
     for nb in (0, 1, 11, 5, 15, 1, 15, 11, 21, 22):       # tables of equal size and different names follow each other; a self-defined name; odd keys
-        st = state(name=["keep"], bind=BINDS[nb])
+        st = state(name=["keep"], bind=BINDS[nb], quote=(nb in (1, 15)), send=(nb in (5, 15)))
         cases.append(case(rng.randrange(2), 10, base * 3, [st], tape(rng)))
         cases.append(case(rng.randrange(2), 11, base * 3, [st, [], S("NAME.RANDBOUNDNAME"), 0, [], 0], tape(rng)))
         cases.append(case(rng.randrange(2), 11, base, [st, [], S("NAME.RAND"), 0, [], 0], tape(rng)))
